@@ -12,6 +12,7 @@ import (
 	"fmt"
 	"net"
 	"os"
+	"os/exec"
 	"path/filepath"
 	"strings"
 	"sync/atomic"
@@ -66,8 +67,26 @@ func (e *env) child(channel string, opts map[string][]string, withAPI bool) (*li
 	for k, vs := range opts {
 		if channel == "config" {
 			// YAML config file: one key per option, lists as comma-separated single-quoted strings
-			fmt.Fprintf(&yaml, "%s: '%s'\n", k, strings.ReplaceAll(strings.Join(vs, ","), "'", "''"))
+			// YAML: a scalar for one value, a real list for several (list items may contain commas)
+			if len(vs) == 1 {
+				fmt.Fprintf(&yaml, "%s: '%s'\n", k, strings.ReplaceAll(vs[0], "'", "''"))
+			} else {
+				fmt.Fprintf(&yaml, "%s:\n", k)
+				for _, v := range vs {
+					fmt.Fprintf(&yaml, "  - '%s'\n", strings.ReplaceAll(v, "'", "''"))
+				}
+			}
 			continue
+		}
+		if channel != "config" {
+			// flags and environment split list values at commas: items that contain one travel only in the config file
+			var keep []string
+			for _, v := range vs {
+				if !strings.Contains(v, ",") {
+					keep = append(keep, v)
+				}
+			}
+			vs = keep
 		}
 		if channel == "env" {
 			envs = append(envs, "FORWARDER_"+strings.ToUpper(strings.ReplaceAll(k, "-", "_"))+"="+strings.Join(vs, ","))
@@ -137,12 +156,12 @@ func Run(run *lib.Run, prop string) {
 	defer e.origin.Close()
 	scenarios := map[string][]func(string) bool{
 		"C01": {e.passthrough, e.headerRules},
-		"C02": {e.passthrough, e.eventStream},
+		"C02": {e.passthrough, e.eventStream, e.headerRules},
 		"C03": {e.passthrough, e.tunnelOutlivesHeaderTimeout},
 		"C04": {e.accessControl, e.timeFrame},
 		"C17": {e.accessControl},
 		"C05": {e.routing},
-		"C14": {e.routing, e.pacConcurrent},
+		"C14": {e.routing, e.pacConcurrent, e.pacEval},
 		"C06": {e.credentials},
 		"C07": {e.mitm},
 		"C08": {e.proxyProtocolTimeout},
@@ -166,7 +185,8 @@ func (e *env) base() map[string][]string {
 		"proxy-localhost":    {"allow"},
 		"http-dial-attempts": {"1"},
 		"connect-to": {"origin.test:80:127.0.0.1:" + e.origin.Port(), "ok.denied.test:80:127.0.0.1:" + e.origin.Port(), "direct.test:80:127.0.0.1:" + e.origin.Port(),
-			"origin.test:8080:127.0.0.1:" + e.origin.Port(), "both.test:80:127.0.0.1:" + e.origin.Port(), "x.test:80:127.0.0.1:" + e.origin.Port()},
+			"origin.test:8080:127.0.0.1:" + e.origin.Port(), "both.test:80:127.0.0.1:" + e.origin.Port(), "x.test:80:127.0.0.1:" + e.origin.Port(),
+			"Origin.Test:80:127.0.0.1:" + e.origin.Port()},
 	}
 }
 
@@ -219,7 +239,7 @@ func (e *env) accessControl(ch string) bool {
 	o := e.base()
 	o["proxy-localhost"] = []string{"deny"}
 	o["basic-auth"] = []string{"wire:s3cret"}
-	o["deny-domains"] = []string{`denied\.test`, `-^ok\.denied\.test`, `(?i)^blocked\.example$`, `^both\.test$`, `^x\.test$`, `-^both\.test$`}
+	o["deny-domains"] = []string{`denied\.test`, `-^ok\.denied\.test`, `(?i)^blocked\.example$`, `^both\.test$`, `^x\.test$`, `-^both\.test$`, `^\D+\.corp\.test$`, `\Aadmin\.`, `^[a-z]{1,3}\.quant\.test$`}
 	c, err := e.child(ch, o, false)
 	if err != nil {
 		e.run.Inconclusive("wiring child: " + err.Error())
@@ -241,8 +261,14 @@ func (e *env) accessControl(ch string) bool {
 		{"excluded-from-denial", "ok.denied.test", auth, 200},
 		{"included-and-excluded-by-the-same-pattern", "both.test", auth, 200},
 		{"denied-next-to-it", "x.test", auth, 403},
+		{"denied-by-upper-case-escape", "abc.corp.test", auth, 403},
+		{"denied-by-upper-case-anchor", "admin.site.test", auth, 403},
+		{"denied-by-comma-quantifier", "abc.quant.test", auth, map[bool]int{true: 403, false: 0}[ch == "config"]}, // (0: skipped, the rule travels only in the config file)
 		{"allowed", "origin.test", auth, 200},
 	} {
+		if t.want == 0 {
+			continue
+		}
 		vid := fmt.Sprintf("ac-%s-%d", ch, i)
 		m, got := do(c.ProxyAddr, fmt.Sprintf("GET http://%s/p HTTP/1.1\r\nHost: %s\r\nX-Vid: %s\r\n%s\r\n", t.host, t.host, vid, t.hdr), "GET")
 		q := e.seen(vid)
@@ -288,7 +314,7 @@ func (e *env) routing(ch string) bool {
 	// static upstream with a direct-domains exception
 	o := e.base()
 	o["proxy"] = []string{"http://" + up.Addr}
-	o["direct-domains"] = []string{`^direct\.test$`}
+	o["direct-domains"] = []string{`\Adirect\.test\z`}
 	c, err := e.child(ch, o, false)
 	if err != nil {
 		e.run.Inconclusive("wiring child: " + err.Error())
@@ -296,6 +322,22 @@ func (e *env) routing(ch string) bool {
 	}
 	check(c, "static-upstream", "origin.test", "U")
 	check(c, "direct-domains", "direct.test", "O")
+	c.Stop()
+	// a pass-through connect-to rule (empty destination) shadows a later catch-all
+	trap := lib.MustOrigin("TRAP", "127.0.0.1:0", nil, func(oc *lib.OConn, req *lib.Msg) lib.Action {
+		oc.Write(lib.SimpleResponse(200, "OK", []lib.Field{{"X-Vid", req.Get1("X-Vid")}, {"X-Peer", "TRAP"}}, []byte("ok")))
+		return lib.Continue
+	})
+	defer trap.Close()
+	o = map[string][]string{"proxy-localhost": {"allow"}, "http-dial-attempts": {"1"},
+		"connect-to": {"127.0.0.1:" + e.origin.Port() + "::", "::127.0.0.1:" + trap.Port()}}
+	c, err = e.child(ch, o, false)
+	if err != nil {
+		e.run.Inconclusive("wiring child (pin): " + err.Error())
+		return false
+	}
+	check(c, "connect-to-pass-through-rule-first", "127.0.0.1:"+e.origin.Port(), "O")
+	check(c, "connect-to-catch-all", "elsewhere.test", "TRAP")
 	c.Stop()
 	// PAC script from a file
 	pac := filepath.Join(e.run.Work, "wiring-"+ch+".pac")
@@ -345,7 +387,7 @@ func (e *env) credentials(ch string) bool {
 	defer up.Close()
 	o := e.base()
 	o["basic-auth"] = []string{"cl:clientpw"}
-	o["credentials"] = []string{"siteuser:sitepw@origin.test:80", "siteuser:sitepw@origin.test:8080", "guest:guestpw@*:*"}
+	o["credentials"] = []string{"siteuser:sitepw@origin.test:80", "siteuser:sitepw@origin.test:8080", "caseuser:casepw@Origin.Test:80", "guest:guestpw@*:*"}
 	c, err := e.child(ch, o, false)
 	if err != nil {
 		e.run.Inconclusive("wiring child: " + err.Error())
@@ -364,6 +406,12 @@ func (e *env) credentials(ch string) bool {
 	do(c.ProxyAddr, "GET http://direct.test/c HTTP/1.1\r\nHost: direct.test\r\nX-Vid: "+vid2+"\r\n"+clientPA+"\r\n", "GET")
 	if q := e.seen(vid2); q == nil || q.Get1("Authorization") != "Basic Z3Vlc3Q6Z3Vlc3Rwdw==" || q.Has("Proxy-Authorization") {
 		e.viol("credentials:other-site", fmt.Sprintf("[%s] a site without an entry of its own must get the catch-all entry (guest) and nothing else: %+v", ch, q), nil)
+		ok = false
+	}
+	vidc := "crcase-" + ch
+	do(c.ProxyAddr, "GET http://Origin.Test/c HTTP/1.1\r\nHost: Origin.Test\r\nX-Vid: "+vidc+"\r\n"+clientPA+"\r\n", "GET")
+	if q := e.seen(vidc); q == nil || q.Get1("Authorization") != "Basic Y2FzZXVzZXI6Y2FzZXB3" {
+		e.viol("credentials:host-spelling", fmt.Sprintf("[%s] an entry written for Origin.Test:80 and a request spelled the same way: the origin saw %+v", ch, q), nil)
 		ok = false
 	}
 	vid3 := "cr8080-" + ch
@@ -404,6 +452,7 @@ func (e *env) mitm(ch string) bool {
 	o["mitm-cacert-file"] = []string{lib.DataURI(mitmCA.CertPEM)}
 	o["mitm-cakey-file"] = []string{lib.DataURI(mitmCA.KeyPEM)}
 	o["mitm-domains"] = []string{`.*`, `-\Atunnel\.test\z`}
+	o["mitm-cache-ttl"] = []string{"0s"} // cached certificates never expire; their validity is another option
 	o["cacert-file"] = []string{lib.DataURI(e.ca.CertPEM)}
 	c, err := e.child(ch, o, false)
 	if err != nil {
@@ -469,6 +518,7 @@ func (e *env) mitm(ch string) bool {
 func (e *env) sigterm(ch string) bool {
 	o := e.base()
 	o["shutdown-timeout"] = []string{"10s"}
+	o["idle-timeout"] = []string{"300ms"}
 	c, err := e.child(ch, o, false)
 	if err != nil {
 		e.run.Inconclusive("wiring child: " + err.Error())
@@ -609,6 +659,23 @@ func (e *env) via(ch string) bool {
 		e.viol("via:stripped-by-connect-rule", fmt.Sprintf("[%s] with --connect-header=-Via a plain request reached the origin with Via %q", ch, q2.Get("Via")), nil)
 		return false
 	}
+	c2.Stop()
+	// rules for responses must leave requests alone, whatever other rule kinds are configured
+	o = e.base()
+	o["header"] = []string{"X-Any: 1"}
+	o["response-header"] = []string{"-Via"}
+	c3, err := e.child(ch, o, false)
+	if err != nil {
+		e.run.Inconclusive("wiring child: " + err.Error())
+		return false
+	}
+	defer c3.Stop()
+	vid3 := "via3-" + ch
+	do(c3.ProxyAddr, "GET http://origin.test/v HTTP/1.1\r\nHost: origin.test\r\nX-Vid: "+vid3+"\r\n\r\n", "GET")
+	if q3 := e.seen(vid3); q3 == nil || !strings.HasPrefix(q3.Get1("Via"), "1.1 forwarder-") || q3.Get1("X-Any") != "1" {
+		e.viol("via:stripped-by-response-rule", fmt.Sprintf("[%s] with --header 'X-Any: 1' --response-header=-Via a request reached the origin as %+v", ch, q3), nil)
+		return false
+	}
 	return true
 }
 
@@ -653,6 +720,33 @@ func (e *env) limits(ch string) bool {
 		e.viol("limits:not-applied:proxy-protocol-listener", fmt.Sprintf("[%s] with --proxy-protocol-listener --read-limit 1M --write-limit 1M a 6 MiB download took %.2f s; burst 4 MiB + 1 MiB/s allows it no sooner than ~2 s", ch, dPP.Seconds()), nil)
 		return false
 	}
+	// write-limit alone on a PROXY-protocol listener: uploads are throttled, by that value
+	ou := e.base()
+	ou["write-limit"] = []string{"1M"}
+	ou["proxy-protocol-listener"] = []string{"true"}
+	if cu, err := e.child(ch, ou, false); err == nil {
+		st, derr := lib.Dial(cu.ProxyAddr)
+		if derr == nil {
+			t0 := time.Now()
+			st.C.Write([]byte("PROXY TCP4 198.51.100.7 127.0.0.1 40000 3128\r\n"))
+			fmt.Fprintf(st.C, "POST http://origin.test/up HTTP/1.1\r\nHost: origin.test\r\nX-Vid: up-%s\r\nContent-Length: %d\r\n\r\n", ch, 6<<20)
+			st.C.Write(make([]byte, 6<<20))
+			m, pst, _ := st.ReadResponse("POST", 60*time.Second)
+			dUp := time.Since(t0)
+			st.Close()
+			if pst != lib.POK || m.Status != 200 {
+				e.viol("limits:transfer-failed", fmt.Sprintf("[%s] 6 MiB upload through a PROXY-protocol listener with --write-limit failed: %v", ch, m), nil)
+				cu.Stop()
+				return false
+			}
+			if dUp < 1500*time.Millisecond {
+				e.viol("limits:not-applied:write-limit-on-proxy-protocol-listener", fmt.Sprintf("[%s] with --proxy-protocol-listener --write-limit 1M (no read limit) a 6 MiB upload took %.2f s; burst 4 MiB + 1 MiB/s allows it no sooner than ~2 s", ch, dUp.Seconds()), nil)
+				cu.Stop()
+				return false
+			}
+		}
+		cu.Stop()
+	}
 	// burst 4 MiB + 1 MiB/s: 6 MiB cannot arrive in less than (6-4) s minus slack
 	if dLim < 1500*time.Millisecond {
 		e.viol("limits:not-applied", fmt.Sprintf("[%s] with --read-limit 1M --write-limit 1M a 6 MiB download took %.2f s (control without limits %.2f s); burst 4 MiB + 1 MiB/s allows it no sooner than ~2 s", ch, dLim.Seconds(), dCtl.Seconds()), nil)
@@ -664,8 +758,10 @@ func (e *env) limits(ch string) bool {
 // headerRules: --header applies to requests, --connect-header to CONNECT only, whatever came before.
 func (e *env) headerRules(ch string) bool {
 	o := e.base()
-	o["header"] = []string{"X-Req-Rule: r"}
+	long := strings.Repeat("default-src 'self' https://cdn.example; ", 4) + "end"
+	o["header"] = []string{"X-Req-Rule: r", "Authorization: Bearer tok-123", "Cookie: sid=abc", "X-Api-Key: k-987"}
 	o["connect-header"] = []string{"X-Conn-Rule: c"}
+	o["response-header"] = []string{"X-Long: " + long, "Set-Cookie: s=1"}
 	c, err := e.child(ch, o, false)
 	if err != nil {
 		e.run.Inconclusive("wiring child: " + err.Error())
@@ -674,8 +770,16 @@ func (e *env) headerRules(ch string) bool {
 	defer c.Stop()
 	get := func(k int) bool {
 		vid := fmt.Sprintf("hr-%s-%d", ch, k)
-		do(c.ProxyAddr, "GET http://origin.test/h HTTP/1.1\r\nHost: origin.test\r\nX-Vid: "+vid+"\r\n\r\n", "GET")
+		m, _ := do(c.ProxyAddr, "GET http://origin.test/h HTTP/1.1\r\nHost: origin.test\r\nX-Vid: "+vid+"\r\n\r\n", "GET")
+		if m == nil || m.Get1("X-Long") != long || m.Get1("Set-Cookie") != "s=1" {
+			e.viol("header-rules:response-value-altered", fmt.Sprintf("[%s] --response-header rules must be applied with the configured value, the client got %v", ch, m), nil)
+			return false
+		}
 		q := e.seen(vid)
+		if q != nil && (q.Get1("Authorization") != "Bearer tok-123" || q.Get1("Cookie") != "sid=abc" || q.Get1("X-Api-Key") != "k-987") {
+			e.viol("header-rules:value-altered", fmt.Sprintf("[%s] --header rules must be applied with the configured value: Authorization %q Cookie %q X-Api-Key %q", ch, q.Get("Authorization"), q.Get("Cookie"), q.Get("X-Api-Key")), nil)
+			return false
+		}
 		if q == nil || len(q.Get("X-Req-Rule")) != 1 || q.Get1("X-Req-Rule") != "r" || q.Has("X-Conn-Rule") {
 			e.viol("header-rules:request", fmt.Sprintf("[%s] plain request #%d: --header rules must apply and --connect-header rules must not, the origin saw %+v", ch, k, q), nil)
 			return false
@@ -735,6 +839,7 @@ func (e *env) eventStream(ch string) bool {
 func (e *env) tunnelOutlivesHeaderTimeout(ch string) bool {
 	o := e.base()
 	o["read-header-timeout"] = []string{"1s"}
+	o["idle-timeout"] = []string{"1s"}
 	c, err := e.child(ch, o, false)
 	if err != nil {
 		e.run.Inconclusive("wiring child: " + err.Error())
@@ -755,7 +860,7 @@ func (e *env) tunnelOutlivesHeaderTimeout(ch string) bool {
 		time.Sleep(1300 * time.Millisecond)
 		fmt.Fprintf(st.C, "GET /late%d HTTP/1.1\r\nHost: origin.test\r\nX-Vid: late-%s-%d\r\n\r\n", k, ch, k)
 		if r, pst, _ := st.ReadResponse("GET", 8*time.Second); pst != lib.POK || r.Get1("X-Vid") != fmt.Sprintf("late-%s-%d", ch, k) {
-			e.viol("tunnel:cut-by-read-header-timeout", fmt.Sprintf("[%s] with --read-header-timeout 1s a tunnel stopped relaying %.1f s after it was opened: %v", ch, 1.3*float64(k+1), r), nil)
+			e.viol("tunnel:cut-by-read-header-timeout", fmt.Sprintf("[%s] with --read-header-timeout 1s --idle-timeout 1s a tunnel in use stopped relaying %.1f s after it was opened: %v", ch, 1.3*float64(k+1), r), nil)
 			return false
 		}
 	}
@@ -912,6 +1017,39 @@ func (e *env) shutdownTimeout(ch string) bool {
 	if el < 800*time.Millisecond {
 		e.viol("shutdown-timeout:exit-too-early", fmt.Sprintf("[%s] the process exited %.2f s after SIGTERM although an exchange was in flight and the drain time is 1 s", ch, el.Seconds()), nil)
 		return false
+	}
+	return true
+}
+
+// pacEval: the `pac eval` subcommand answers as the script says for the host of each URL (without
+// port or brackets, as the standard hands it to FindProxyForURL).
+func (e *env) pacEval(ch string) bool {
+	if ch != "flags" {
+		return true
+	}
+	pac := filepath.Join(e.run.Work, "wiring-eval.pac")
+	os.WriteFile(pac, []byte(`function FindProxyForURL(url, host) {
+  if (isPlainHostName(host)) return "PROXY plain:1";
+  if (dnsDomainIs(host, ".example.com")) return "PROXY dom:2";
+  if (shExpMatch(host, "10.*")) return "PROXY ten:3";
+  if (host == "2001:db8::1") return "PROXY six:4";
+  return "DIRECT";
+}`), 0o644)
+	urls := []string{"http://intranet:8080/", "http://api.example.com:8443/x", "https://api.example.com/", "http://10.1.2.3:9000/", "http://[2001:db8::1]:9000/x", "http://other.test:81/"}
+	want := []string{"PROXY plain:1", "PROXY dom:2", "PROXY dom:2", "PROXY ten:3", "PROXY six:4", "DIRECT"}
+	cmd := exec.Command(lib.Bin(e.run, "forwarder"), append([]string{"pac", "eval", "--pac", pac}, urls...)...)
+	cmd.Env = []string{"PATH=/usr/bin:/bin", "HOME=/tmp"}
+	out, err := cmd.Output()
+	got := strings.Split(strings.TrimSpace(string(out)), "\n")
+	if err != nil || len(got) != len(want) {
+		e.viol("pac-eval:failed", fmt.Sprintf("forwarder pac eval: %v, output %q", err, string(out)), nil)
+		return false
+	}
+	for i := range want {
+		if strings.TrimSpace(got[i]) != want[i] {
+			e.viol("pac-eval:answer", fmt.Sprintf("forwarder pac eval %s = %q, the script says %q", urls[i], got[i], want[i]), nil)
+			return false
+		}
 	}
 	return true
 }
